@@ -369,6 +369,11 @@ package secretstore
 
 //@ func (*secretStore).postDecryptActions
 //@   for C02, C10
+//@   # C10, write order: a crash between any two writes leaves every opened message openable (its key is recorded
+//@   # by CID before the precomputed key is deleted) and the chain record never runs ahead of the stored keys
+//@   at (*secretStore).delPrecomputedKey requires [C10.order.cid-before-delete] decryptionCtx.cid.str != bempty ==>
+//@        dsh(s.datastore)[k_cid(decryptionCtx.cid.str)] && dsv(s.datastore)[k_cid(decryptionCtx.cid.str)] == bytes(decryptionCtx.messageKey)
+//@   at (*secretStore).updateCurrentKey requires [C10.order.key-before-record] dsh(s.datastore)[k_pre(pkv(groupPublicKey), pkv(devicePublicKey), deviceChainKey.Counter)]
 //@   requires s != nil ==> s.datastore != nil && s.logger != nil && locked(addr(s.messageMutex))
 //@   requires groupPublicKey != nil && msgHeaders != nil
 //@   requires decryptionCtx != nil ==> decryptionCtx.messageKey != nil
@@ -498,6 +503,12 @@ package secretstore
 
 //@ func (*secretStore).registerChainKey
 //@   for C02, C10
+//@   # C10, write order: the chain-key record is written only after the whole window of message keys is stored (a
+//@   # record without its keys would make the sender's messages unopenable for ever: registration is not retried)
+//@   at (*secretStore).putDeviceChainKey requires [C10.order.window-before-record] !caller_isCurrentDeviceChainKey ==>
+//@        (forall j {mkiter(bytes(caller_deviceChainKey.ChainKey), pkv(groupPublicKey), j)} :: 1 <= j && j <= s.preComputedKeysCount ==>
+//@            dsh(s.datastore)[k_pre(pkv(groupPublicKey), pkv(devicePublicKey), caller_deviceChainKey.Counter + j)]
+//@         && dsv(s.datastore)[k_pre(pkv(groupPublicKey), pkv(devicePublicKey), caller_deviceChainKey.Counter + j)] == mkiter(bytes(caller_deviceChainKey.ChainKey), pkv(groupPublicKey), j))
 //@   requires s != nil ==> s.datastore != nil && s.logger != nil && (!isCurrentDeviceChainKey ==> unlocked(addr(s.messageMutex)))
 //@   requires group != nil && devicePublicKey != nil && deviceChainKey != nil
 //@   requires s != nil ==> deviceChainKey.Counter + s.preComputedKeysCount < 18446744073709551616
@@ -616,7 +627,7 @@ package secretstore
 //@ pred dkOK(a) = a != nil && ksOK(a.keystore)
 
 //@ func (*deviceKeystore).getOrGenerateNamedKey
-//@   for C11
+//@   for C11, C10
 //@   requires dkOK(a)
 //@   requires [C11.named.ns] name == "accountSK" || name == "accountProofSK" || name == "deviceSK" || name == join2("memberDeviceSK", join2_b(name))
 //@   modifies ksh(a.keystore), ksk(a.keystore)
@@ -655,7 +666,7 @@ package secretstore
 //@ # getOrComputeECDH: the result is the agreement key of (own private key, public key), whether it came from the
 //@ # cache or was just computed, and it is cached under the namespaced name
 //@ func (*deviceKeystore).getOrComputeECDH
-//@   for C11
+//@   for C11, C10
 //@   safety
 //@   requires dkOK(a) && unlocked(addr(a.mu)) && publicKey != nil && ownPrivateKey != nil
 //@   requires [C11.ecdh.ownkey] (nameSpace == "contactGroupSK" && ksh(a.keystore)["accountSK"] && ownPrivateKey == ksk(a.keystore)["accountSK"])
